@@ -38,6 +38,9 @@ func weightsFor(profile string) map[string]int {
 		if profile == "C10" {
 			base["size_burst"] = 2
 		}
+		if profile == "C13" || profile == "C04" {
+			base["gov"] = 3
+		}
 		base["cancel_pair"] = 5
 		base["batch_race"] = 7
 		base["user_send"] = 20
@@ -567,7 +570,7 @@ func (g *Gen) Step() {
 			break
 		}
 		c05 := g.Profile == "C05" || g.Profile == "C05adv" || g.Profile == "C05size"
-		if (c05 && g.R.Intn(2) == 0) || ((g.Profile == "C01" || g.Profile == "C04" || os.Getenv("MHUBSIM_DELIST") != "") && g.R.Intn(4) == 0) {
+		if (c05 && g.R.Intn(2) == 0) || ((g.Profile == "C01" || g.Profile == "C04" || g.Profile == "C13" || os.Getenv("MHUBSIM_DELIST") != "") && g.R.Intn(4) == 0) {
 			// a token leaves the list while transfers of it are pending (refunds to its chain can no longer be created)
 			g.emit(Intent{T: "gov", Op: "delist", V: g.R.Intn(len(w.Vals)), Pick: g.R.Intn(9)})
 		} else if g.R.Intn(2) == 0 {
